@@ -1,0 +1,17 @@
+//go:build verif
+
+// Contracts for package internal (kvc). Comment-only file.
+package internal
+
+//@ func ComputeJobsPerTask
+//@   mode int
+//@   props C01 C04 C05
+//@   requires tasks <= len(jobsPerTask) && tasks <= 4096 && jobs <= 4096
+//@   ensures result0 == jobsPerTask                                             #same-slice
+//@   ensures result1 == nil <==> tasks != 0 && jobs != 0                        #errors
+//@   ensures result1 == nil ==> forall q :: off(jobsPerTask) <= q && q < off(jobsPerTask) + len(jobsPerTask) ==> raw(jobsPerTask, q) >= 1    #at-least-one-job
+//@   modifies jobsPerTask[*]
+//@   loop 1 invariant 0 - 1 <= rangeindex && rangeindex < len(jobsPerTask) && 1 <= q && q <= jobs && q*tasks + r == (jobs <= tasks ? q*tasks : jobs) && r < tasks && (forall p :: off(jobsPerTask) <= p && p <= off(jobsPerTask) + rangeindex ==> raw(jobsPerTask, p) == q)
+//@   loop 1 decreases len(jobsPerTask) - rangeindex
+//@   loop 2 invariant n < tasks && r < tasks && r + n < tasks + 1 && 1 <= q && q <= jobs && (forall p :: off(jobsPerTask) <= p && p < off(jobsPerTask) + len(jobsPerTask) ==> raw(jobsPerTask, p) >= q && raw(jobsPerTask, p) <= q + loopentry(r) - r) && r <= loopentry(r)
+//@   loop 2 decreases r
